@@ -187,3 +187,10 @@ def _read_lsb0(advance):
         self.attrs['_pos'] = sm.attrs['_pos']
         return r
     return f
+
+
+# ---- construction from external sources: offset/length address the *source* (a file or buffer position), so the window is
+# ---- the same whatever the bit-numbering option says (Bits(bytes=..., offset=k) already uses getslice_msb0 explicitly)
+from . import sources as _sources  # noqa: E402  (registers the source contracts first)
+for _q in ('bits.Bits._setbytes_with_truncation', 'bits.Bits._setbitarray', 'bits.Bits._setfile', 'bits.Bits._setauto'):
+    add_lsb0(_q, custom=REGISTRY[_q].spec, extra_props={'C08'})
